@@ -43,7 +43,8 @@ WhyClump(t) ==
         dg == t.out.dgrams
         split == [g \in 1..Len(dg) |-> dg[g].ids] IN
     IF ~Splittable(real, ExtraAt(t.site)) THEN "ok"       \* no split exists: nothing is demanded
-    ELSE IF t.out.k = "raise" THEN "Raised"
+    \* the size predictor refuses some element (e.g. non-ASCII address): raising is a refusal, not a failure
+    ELSE IF t.out.k = "raise" THEN (IF \A i \in 1..Len(t.els) : Predictable(t.els[i]) THEN "Raised" ELSE "ok")
     ELSE IF ~OnceInOrder(split, Len(real)) THEN "OnceInOrder"
     ELSE IF \E g \in 1..Len(dg) : dg[g].len > Limit THEN "WithinLimit"
     ELSE IF \E g \in 1..Len(dg) : dg[g].len # DgramLen(split[g], real, SyncElem * dg[g].sync) THEN "EncLen"
